@@ -138,6 +138,30 @@ def refHistory : List Model.TagOp → List Spec.Elem → Option (List Spec.Elem)
     | some es' => refHistory rest es'
     | none => none
 
+/-- `tgd`: histories with the pseudo-operation `d:<num>` = "append a copy of the first element numbered num, handing
+the library a pointer INTO the list's own buffer as the data to copy" (the data argument aliases the object being
+edited; the API documents it as data to copy) -/
+def runTagOpsD (raw : List String) : String := Id.run do
+  let mut t := Model.Tags.empty
+  let mut outs : Array String := #[]
+  for r in raw do
+    let op : Option (Option Model.TagOp) := match r.splitOn ":" with
+      | ["d", n] => match n.toNat? with
+        | some n => match (Spec.parse t.params).find? (fun e => e.num.toNat == n) with
+          | some e => some (some (.add n e.body))
+          | none => some none
+        | none => none
+      | _ => (parseTagOp r).map some
+    match op with
+    | none => return "bad-op"
+    | some none => outs := outs.push (showTagState (-7777) t)
+    | some (some op) =>
+      match Model.stepTag t op with
+      | .ok (r, t') => t := t'; outs := outs.push (showTagState r t')
+      | .err c => outs := outs.push s!"err {c}"
+      | .fault f => outs := outs.push s!"FAULT {repr f}"
+  return if outs.isEmpty then "nop" else " | ".intercalate outs.toList
+
 def toEditOp : Model.TagOp → Spec.EditOp
   | .add n d => .add n d
   | .remove n => .remove n
@@ -634,9 +658,9 @@ def stepAlloc (k : Option Nat) (fromOn : Bool) (inner : List String) : String :=
       | some edits => run (runGenH σ mk (gargsOf kv) edits ((kv.lookup "buf").bind parseNat) ((kv.lookup "fcflags").bind parseNat))
       | none => "bad-op"
     | none => "bad-op"
-  | ["cls", rt, h] => match ofHex h with | some bs => run (stepClsH σ (rt == "1") bs) | none => "bad-op"
-  | ["mp", rt, h] => match ofHex h with | some bs => run (stepMpH σ (rt == "1") bs) | none => "bad-op"
-  | ["eap", rt, h] => match ofHex h with | some bs => run (stepEapH σ (rt == "1") bs) | none => "bad-op"
+  | ["cls", rt, h] => match ofHex h with | some bs => run (stepClsH σ (rt != "0") bs) | none => "bad-op"
+  | ["mp", rt, h] => match ofHex h with | some bs => run (stepMpH σ (rt != "0") bs) | none => "bad-op"
+  | ["eap", rt, h] => match ofHex h with | some bs => run (stepEapH σ (rt != "0") bs) | none => "bad-op"
   | _ => "bad-op"
 
 def step (line : String) : String :=
@@ -676,6 +700,7 @@ def step (line : String) : String :=
     match (ops.splitOn ",").mapM parseTagOp with
     | some ops => runTagOps ops
     | none => "bad-op"
+  | ["tgd", ops] => runTagOpsD (ops.splitOn ",")
   | ["tgl", ops] =>
     match (ops.splitOn ",").mapM parseTagOp with
     | some ops =>
@@ -809,15 +834,15 @@ def step (line : String) : String :=
     | _, _, _ => "bad-op"
   | ["cls", rt, h] =>
     match ofHex h with
-    | some bs => showOutcome showFrame (Model.classify (rt == "1") bs) ++ " ;; spec=" ++ specCls (rt == "1") bs
+    | some bs => showOutcome showFrame (Model.classify (rt != "0") bs) ++ " ;; spec=" ++ specCls (rt != "0") bs
     | none => "bad-op"
   | ["mp", rt, h] =>
     match ofHex h with
-    | some bs => stepMp (rt == "1") bs
+    | some bs => stepMp (rt != "0") bs
     | none => "bad-op"
   | ["eap", rt, h] =>
     match ofHex h with
-    | some bs => stepEap (rt == "1") bs
+    | some bs => stepEap (rt != "0") bs
     | none => "bad-op"
   | "alloc" :: k :: fromOn :: _fill :: inner =>
     stepAlloc (if k == "none" then none else k.toNat?) (fromOn == "1") inner
